@@ -25,7 +25,36 @@ fn fdl_state_name(dbg: &str) -> String {
 
 fn recovery_case(t: &mut Tape, obs: &mut Obs) -> CaseResult {
     let unsync = t.chance(1, 6);
-    let mut cfg = gen_ring_cfg(t, &GenOpts { min_n: 2, max_n: 5, max_hsa_extra: 20, late_joiners: false });
+    let cfg = gen_ring_cfg(t, &GenOpts { min_n: 2, max_n: 5, max_hsa_extra: 20, late_joiners: false });
+    recovery_core(cfg, unsync, t, obs)
+}
+
+/// The claim race constructed on purpose: two stations whose silence time-outs expire together.
+fn claim_race_case(i: u64, obs: &mut Obs) -> CaseResult {
+    let (a, b) = [(0u8, 2u8), (1, 2), (0, 1), (3, 5)][(i % 4) as usize];
+    let baud = [profirust::Baudrate::B500000, profirust::Baudrate::B1500000, profirust::Baudrate::B19200][((i / 4) % 3) as usize];
+    let slot_bits = min_slot_bits(baud) + 100;
+    let mut cfg = RingCfg { baud, hsa: 8, gap: 1, slot_bits, ttr_bits: 40000, max_retry: 1, schedule: Schedule::Jitter, stations: vec![], jitter_seed: i + 1 };
+    let slot = cfg.slot_us();
+    // poll much faster than a byte time, so that neither station can hear the other's first byte
+    // before it transmits itself
+    let p = (cfg.bits_us(11) / 10).max(1);
+    // b's time-out is 2(b-a) slot times longer: it goes online that much earlier
+    let d = 2 * i64::from(b - a) * slot;
+    cfg.stations.push(StationCfg { addr: a, period_us: p.max(1), online_at_us: d });
+    cfg.stations.push(StationCfg { addr: b, period_us: p.max(1), online_at_us: 0 });
+    let empty: [u32; 0] = [];
+    let mut t = Tape::new(&empty);
+    obs.sample(|| json!({"config": cfg.describe()}));
+    recovery_core_opts(cfg, false, &mut t, obs, true)
+}
+
+fn recovery_core(cfg: RingCfg, unsync: bool, t: &mut Tape, obs: &mut Obs) -> CaseResult {
+    recovery_core_opts(cfg, unsync, t, obs, false)
+}
+
+fn recovery_core_opts(mut cfg: RingCfg, unsync: bool, t: &mut Tape, obs: &mut Obs, keep_online_times: bool) -> CaseResult {
+    let _ = keep_online_times;
     if unsync {
         // the un-synchronised cold start (claim race) as a disturbance: stations go online far apart
         let su = cfg.slot_us() as u64;
@@ -221,6 +250,32 @@ fn recovery_case(t: &mut Tape, obs: &mut Obs) -> CaseResult {
                 let tail = &b.trace[b.trace.len().saturating_sub(60)..];
                 tail.len() == 60 && tail.iter().filter(|r| r.overlapped).count() >= 25
             };
+            // ... and whether it began with two stations claiming the token in the same instant (their
+            // silence time-outs ran out together): upstream issue #25, a recorded known finding
+            let claim_race = lockstep && {
+                let b = sim.bus.0.borrow();
+                let tr = &b.trace;
+                // start of the final streak: after the last window of 20 records without any overlap
+                let mut start = 0;
+                for j in (20..tr.len()).rev() {
+                    if tr[j - 20..j].iter().all(|r| !r.overlapped) {
+                        start = j;
+                        break;
+                    }
+                }
+                match (start..tr.len()).find(|k| tr[*k].overlapped) {
+                    Some(k) if k >= 1 => {
+                        let (a, bb) = (&tr[k - 1], &tr[k]);
+                        let is_claim = |r: &crate::simbus::TxRecord| r.bytes.len() == 3 && r.bytes[0] == 0xDC && r.bytes[1] == r.bytes[2];
+                        let quiet_before = if k >= 2 { a.start_ns - tr[k - 2].end_ns >= 5 * cfg.bits_ns(u64::from(cfg.slot_bits)) } else { true };
+                        is_claim(a) && is_claim(bb) && a.sender != bb.sender && quiet_before
+                    }
+                    _ => false,
+                }
+            };
+            if claim_race {
+                fail!("claim-race-lockstep", "two stations claimed the token in the same instant and transmit simultaneously ever since (both deaf while transmitting): no single agreed ring over {:?} within T_rec = {} Tslot after the last disturbance at {} us: {}{}", e, t_rec / slot, last_disturbance, why, dump_tail(&sim));
+            }
             if lockstep {
                 fail!("dual-token-lockstep", "two stations each hold a token and transmit simultaneously for ever (both deaf while transmitting): no single agreed ring over {:?} within T_rec = {} Tslot after the last disturbance at {} us: {}{}", e, t_rec / slot, last_disturbance, why, dump_tail(&sim));
             }
@@ -297,13 +352,16 @@ pub fn property() -> Property {
             "a station that takes itself Offline under the duplicate-address rule (corrupted token frames carry no checksum and can fake its own address) counts as gone and is not required to be re-admitted (counted in the labels)",
             "collisions are modelled as garbled bytes for all listeners; a transmitting station hears nothing (half duplex)",
         ],
-        subchecks: vec![SubCheck::tape("recovery", "fault plan after ring formation, then fault-free recovery", recovery_case)],
+        subchecks: vec![
+            SubCheck::tape("recovery", "fault plan after ring formation, then fault-free recovery", recovery_case),
+            SubCheck::index("claim_race", "two stations whose silence time-outs run out in the same instant (constructed; probe of the known finding claim-race-lockstep)", claim_race_case),
+        ],
         plan: |tier| match tier {
-            Tier::Quick => vec![Step::Pbt { kind: "recovery", cases: 200, max_len: 160 }],
-            Tier::Thorough => vec![Step::Pbt { kind: "recovery", cases: 5000, max_len: 160 }],
+            Tier::Quick => vec![Step::Enumerate { kind: "claim_race", count: 12 }, Step::Pbt { kind: "recovery", cases: 300, max_len: 160 }],
+            Tier::Thorough => vec![Step::Enumerate { kind: "claim_race", count: 12 }, Step::Pbt { kind: "recovery", cases: 8000, max_len: 160 }],
         },
         hang_is_violation: true,
         hang_limit_s: 900,
-        probes: vec![],
+        probes: vec![KnownProbe { signature: "claim-race-lockstep", kind: "claim_race", data: ReplayData::Index(0) }],
     }
 }
